@@ -365,6 +365,11 @@ func (sc *schedScenario) explore(t *testing.T, j *vlib.Job, r *vlib.Result) {
 			// the failure class (not the text, which may quote random bytes such as mis-decrypted
 			// values or goroutine addresses) must be identical on every replay
 			sig := x.Outcome + "|" + x.Class
+			if x.S.Diverged != "" {
+				// the recorded schedule cannot be followed: a failure of the harness, never of the property
+				r.Internal = "replay diverged: " + x.S.Diverged
+				return
+			}
 			if i == 0 {
 				first = sig
 				r.Notes = append(r.Notes, "replay outcome: "+x.Outcome, "trace: "+x.S.TraceString())
@@ -389,6 +394,8 @@ func (sc *schedScenario) explore(t *testing.T, j *vlib.Job, r *vlib.Result) {
 		Deadline:   j.Deadline(start),
 		StopOnViol: true,
 		IsKnown:    j.IsKnown,
+		// VERIF_INJECT_DIVERGE=n: self-test, see sched.Explorer.InjectDiverge
+		InjectDiverge: envInt("VERIF_INJECT_DIVERGE"),
 		Run: func(prefix []int) *sched.Exec {
 			x := sc.runOne(t, j, prefix)
 			if os.Getenv("VERIF_DEBUG") != "" {
@@ -398,6 +405,21 @@ func (sc *schedScenario) explore(t *testing.T, j *vlib.Job, r *vlib.Result) {
 		},
 	}
 	e.Explore()
+	if e.Retried > 0 {
+		r.AddExtra("diverged_executions_rerun", int64(e.Retried))
+	}
+	if e.GaveUp > 0 {
+		// a prefix that could not be followed on any attempt: its subtree was skipped
+		r.AddExtra("diverged_prefixes_skipped", int64(e.GaveUp))
+		r.Capped, r.CapReason = true, "nondeterministic prefix skipped"
+	}
+	if len(e.DivergeLog) > 0 {
+		r.Notes = append(r.Notes, e.DivergeLog...)
+		if f, err := os.OpenFile(filepath.Join(filepath.Dir(j.Out), "diverge.log"), os.O_APPEND|os.O_CREATE|os.O_WRONLY, 0o644); err == nil {
+			fmt.Fprintf(f, "%s %s shard %d bound %d\n%s\n", j.Property, sc.name, j.Shard, j.Bound, strings.Join(e.DivergeLog, "\n"))
+			f.Close()
+		}
+	}
 	r.Evaluations += int64(e.Execs)
 	r.Dup += int64(e.DupExecs)
 	r.States += int64(e.Execs)
@@ -418,6 +440,12 @@ func (sc *schedScenario) explore(t *testing.T, j *vlib.Job, r *vlib.Result) {
 	for _, v := range e.Violations {
 		r.Violate(v.Class, v.Violation, map[string]any{"scenario": sc.name, "choices": v.S.Choices()}, v.S.TraceString(), v.S.Events)
 	}
+}
+
+func envInt(name string) int {
+	n := 0
+	fmt.Sscanf(os.Getenv(name), "%d", &n)
+	return n
 }
 
 func registerSched(sc *schedScenario) {
